@@ -12,7 +12,7 @@ import (
 func init() {
 	register(&propDef{
 		ID:       "C03",
-		Explain:  "Decided (structural necessary conditions of replay equivalence): every accepted tree write in Target.GnmiUpdate is announced to the feed callback with the leaf it produced before the next write / exit, and every leaf returned by gnmiRemove is announced from an unconditional loop body; gnmiUpdate withholds a result (nil leaf, nil error) iff the leaf exists, the update is not atomic, value.Equal says unchanged and emulation is on — and still moves the stored value; a returned leaf is the GetLeaf result of the written path, after the write; the caller's notification is written only by the nil/restore pair of the multi arm and the restore runs on every exit; no retained append on a foreign or forked base in cache/subscribe/match/path/client-gnmi/ctree (slice aliasing); multi notifications process all updates before any delete, each on a proto.Clone; value.Equal is sound arm by arm; Reset/Remove announce their deletes. Also decided: completeness of the combined-notification arm (both loops left only through their headers; the delete loop is on every path from the update loop to a return); Reset announces exactly the root it deleted, with path [*] (compared on every explored path, helpers inlined). Round-3 additions: the (updates, deletes) dispatch table; the tree-delete clauses a conditional delete relies on to unlink exactly what it announces (C09 select / prune-guard / conditional, borrowed). Round-4 addition: the delete path announced for a removed leaf is prefix ++ update path in the encoding that carries the elements, replayed for every pure encoding (Elem/Element, elements in prefix/path/both, atomic or not). Round-5 addition: Cache.Reset runs Target.Reset under Cache.mu, so a Remove cannot put its whole-target delete in the middle of the announcements of a reset.",
+		Explain:  "Decided (structural necessary conditions of replay equivalence): every accepted tree write in Target.GnmiUpdate is announced to the feed callback with the leaf it produced before the next write / exit, and every leaf returned by gnmiRemove is announced from an unconditional loop body; gnmiUpdate withholds a result (nil leaf, nil error) iff the leaf exists, the update is not atomic, value.Equal says unchanged and emulation is on — and still moves the stored value; a returned leaf is the GetLeaf result of the written path, after the write; the caller's notification is written only by the nil/restore pair of the multi arm and the restore runs on every exit; no retained append on a foreign or forked base in cache/subscribe/match/path/client-gnmi/ctree (slice aliasing); multi notifications process all updates before any delete, each on a proto.Clone; value.Equal is sound arm by arm; Reset/Remove announce their deletes. Also decided: completeness of the combined-notification arm (both loops left only through their headers; the delete loop is on every path from the update loop to a return); Reset announces exactly the root it deleted, with path [*] (compared on every explored path, helpers inlined). Round-3 additions: the (updates, deletes) dispatch table; the tree-delete clauses a conditional delete relies on to unlink exactly what it announces (C09 select / prune-guard / conditional, borrowed). Round-4 addition: the delete path announced for a removed leaf is prefix ++ update path in the encoding that carries the elements, replayed for every pure encoding (Elem/Element, elements in prefix/path/both, atomic or not). Round-5 addition: Cache.Reset runs Target.Reset under Cache.mu, so a Remove cannot put its whole-target delete in the middle of the announcements of a reset. Round-7 addition: a path of gnmiUpdate that wrote the tree returns a nil error (an error makes the caller skip the announcement of a value that is already stored).",
 		NotCover: "replay equivalence over histories as such; that delete notifications carry the right path beyond the aliasing rule and the composition table of toDeleteNotification (path elements with keys are taken as opaque units); atomic containers 'never partially visible' beyond one write + one announcement",
 		Run:      runC03,
 	})
@@ -31,7 +31,7 @@ func runC03(c *Ctx) {
 	c.Analysed(fnName(gu))
 	c.Rule("C03.announce", "Target.GnmiUpdate: after every gnmiUpdate call that returned (leaf != nil, err == nil) the next feed-relevant event on every path is a call of the client field with exactly that leaf; the leaves returned by every gnmiRemove call are ranged and passed to the client from a loop body without conditions")
 	c.Rule("C03.withhold", "gnmiUpdate (leaf exists, newer timestamp, accepted): returns (nil, nil) iff !atomic && value.Equal && eventDriven, and that path still contains Leaf.Update(n); all other accepted paths return the looked-up leaf")
-	c.Rule("C03.write-then-return", "a path of gnmiUpdate returning a non-nil leaf contains Leaf.Update or Tree.Add earlier on the path, and the returned leaf is a GetLeaf result for the same path value as the write")
+	c.Rule("C03.write-then-return", "a path of gnmiUpdate returning a non-nil leaf contains Leaf.Update or Tree.Add earlier on the path, and the returned leaf is a GetLeaf result for the same path value as the write; a path that wrote the tree returns a nil error (an error makes the caller skip the announcement of a value that is already stored), the failure of the Add itself excepted")
 	c.Rule("C03.input-intact", "in package cache the only stores through a *pb.Notification/Path/Update that the function does not own are `n.Update = nil; n.Delete = nil` in the multi arm of Target.GnmiUpdate, and on every path that executes them the last stores to those fields restore the values read before")
 	c.Rule("C03.alias", "no append whose result is retained has a foreign base (a slice read out of an object the function does not own) or a forked base (a slice with possible spare capacity appended to more than once); packages cache, path, ctree, value (subscribe/match are audited under C06, client/gnmi under C19)")
 	c.Rule("C03.multi", "multi arm of Target.GnmiUpdate: every gnmiUpdate call precedes every gnmiRemove call on every path, and each operates on a proto.Clone of the notification")
@@ -262,6 +262,29 @@ func runC03(c *Ctx) {
 			c.Check(okLeaf && okWrite && samePath, "C03.write-then-return", fn, "returned leaf is the written leaf", pos, fmt.Sprintf("leaf from GetLeaf=%v, write before return=%v, same path/leaf=%v; path: %s", okLeaf, okWrite, samePath, p.String()))
 		}
 		c.Floor("C03.write-then-return/paths", n, 2)
+		// ... and a path that wrote the tree does not report failure: the caller announces nothing for an error,
+		// so the stored value would never reach the feed
+		nw := 0
+		for i := range e.Paths {
+			p := &e.Paths[i]
+			if p.End != "return" || len(p.Rets) != 2 {
+				continue
+			}
+			wi := p.Index(0, isTreeWrite)
+			if wi < 0 {
+				continue
+			}
+			nw++
+			ok := retClass(p.Rets[1]) == "nil"
+			if !ok && isTreeAdd(&p.Trace[wi]) {
+				// the failure of the Add itself: nothing was stored
+				if v, isV := p.Trace[wi].In.(ssa.Value); isV && p.Rets[1].V == v {
+					ok = true
+				}
+			}
+			c.Check(ok, "C03.write-then-return", fn, "no error is returned once the tree was written", pos, fmt.Sprintf("returns error %s after %s; path: %s", retClass(p.Rets[1]), p.Trace[wi].Label, p.String()))
+		}
+		c.Floor("C03.write-then-return/writing-paths", nw, 2)
 	}
 	// ---- input intact
 	{
